@@ -123,7 +123,7 @@ class Encrypt(Machine):
                           "kid": s.choice(KIDS) if s.chance(0.7) else s.below(1 << 32),
                           "hash": s.choice(HASHES), "out": s.choice(dirs),
                           "entry": s.choice(["cli", "cli", "lib", "lib_reuse", "main", "kms"]),
-                          "ctx": s.choice(["path", "json"]), "stale": s.chance(0.3)}
+                          "ctx": s.choice(["path", "json"]), "stale": s.chance(0.3), "kd": 1 if s.chance(0.3) else 0}
                 last_enc = op
             elif r < 0.67:
                 op = {"kind": "geninfo", "i": i, "fw": s.choice(fws)[0], "key": s.choice(keys),
@@ -178,9 +178,13 @@ class Encrypt(Machine):
             model["_gen"] = host.generation
         if k == "setup":
             host.mkdir("keys")
+            host.mkdir("keys2")
             for name in op["keys"]:
                 model["keys"][name] = world.blob(host.seed, "aeskey-" + name, 32)
                 host.write(f"keys/{name}.bin", model["keys"][name])
+                # a second product's key directory: the same key *names*, other key bytes
+                model["keys"]["2:" + name] = world.blob(host.seed, "aeskey2-" + name, 32)
+                host.write(f"keys2/{name}.bin", model["keys"]["2:" + name])
             for name, size in op["fws"]:
                 model["fws"][name] = world.blob(host.seed, name, size)
                 host.write(f"{name}.bin", model["fws"][name])
@@ -220,8 +224,13 @@ class Encrypt(Machine):
             model["dirs"][op["out"]] = None
             model["_extra"]["stale_sets"] += 1
 
+    @staticmethod
+    def _keyref(op):
+        """Name under which the model holds the key this operation names (key directory + key name)."""
+        return ("2:" if op.get("kd") else "") + op["key"]
+
     def _context(self, host, op):
-        kd = host.path("keys")
+        kd = host.path("keys2" if op.get("kd") else "keys")
         return kd if op.get("ctx", "path") == "path" else json.dumps({"keys_directory": kd})
 
     def _run_enc(self, host, model, op, faults):
@@ -262,11 +271,14 @@ class Encrypt(Machine):
         import importlib
         from suit_generator.suit_encrypt_script_base import SuitKWAlgorithms
 
-        kms = model.get("kms_obj")
+        kms = (model.get("kms_obj") or {}).get(ctx)
         if kms is None:
             kms = importlib.import_module("ncs.basic_kms").suit_kms_factory()
             kms.init_kms(ctx)
-            model["kms_obj"] = kms
+            model.setdefault("kms_obj", {})
+            if model["kms_obj"] is None:
+                model["kms_obj"] = {}
+            model["kms_obj"][ctx] = kms
         aad = cose.enc_structure(PROTECTED)
         nonce, tag, ciphertext = kms.encrypt(plaintext, key_name, ctx, aad)
         encr = importlib.import_module("ncs.encrypt_script").suit_encryptor_factory()
@@ -320,7 +332,7 @@ class Encrypt(Machine):
             except Exception as e:  # noqa: BLE001
                 return [violation(prop, "artifact-missing", op["i"], f"library return value unusable: {e!r}")]
         plain = model["fws"][op["fw"]]
-        key = model["keys"][op["key"]]
+        key = model["keys"][self._keyref(op)]
         try:
             iv, prot, kid_b, kw, rct = read_info(info)
         except (cborr.CborError, AttributeError, IndexError, ValueError, TypeError) as e:
@@ -329,7 +341,7 @@ class Encrypt(Machine):
         ex["encryptions_ok"] += 1
         # ---- C14
         if prop == "C14":
-            seen = model["ivs"].setdefault(op["key"], {})
+            seen = model["ivs"].setdefault(self._keyref(op), {})
             if len(iv) != 12:
                 vs.append(violation("C14", "iv-width", op["i"], f"published IV has {len(iv)} bytes"))
             if iv in seen:
@@ -344,10 +356,10 @@ class Encrypt(Machine):
                 ex["max_encryptions_per_key"] = n
             if n >= 2:
                 model["_nontrivial"] = True
-            lp = model["last_plain"].get(op["key"])
+            lp = model["last_plain"].get(self._keyref(op))
             if lp == op["fw"]:
                 ex["identical_pairs"] += 1
-            model["last_plain"][op["key"]] = op["fw"]
+            model["last_plain"][self._keyref(op)] = op["fw"]
             if model["since_restart"]:
                 ex["enc_after_restart"] += 1
                 model["since_restart"] = False
@@ -379,7 +391,7 @@ class Encrypt(Machine):
             if model["dirs"].get(op["out"]) is not None or op.get("stale"):
                 model["_nontrivial"] = True
         if op["entry"] in ("cli", "main"):
-            model["dirs"][op["out"]] = {"fw": op["fw"], "key": op["key"], "kid": op["kid"], "hash": op["hash"],
+            model["dirs"][op["out"]] = {"fw": op["fw"], "key": self._keyref(op), "kid": op["kid"], "hash": op["hash"],
                                         "info": info, "digest": digest_b, "size": len(plain), "full": True}
         model["_abstract"] = ("enc", op["entry"], op["key"], len(plain) > 16)
         return vs
@@ -420,7 +432,7 @@ class Encrypt(Machine):
 
                     o = host.tool(run, kind="encrypt_lib_forked")
                     out.append((o.cls, o.value if o.ok else None))
-                    if model.get("kms_obj") is not None:
+                    if (model.get("kms_obj") or {}).get(ctx) is not None:
                         o = host.tool(lambda: self._kms_direct(model, plaintext, op["key"], 24, ctx, "sha-256"),
                                       kind="encrypt_kms_api_forked")
                         out.append((o.cls, o.value if o.ok else None))
